@@ -1795,6 +1795,13 @@ pub fn build(full_name: &str, level: u8) -> Option<Scenario> {
     }
     // "-api": every public RawNode entry point is offered to a clone in every state (C20)
     s.api_probe = name.contains("-api");
+    if name.contains("-unpmax") {
+        // apply-before-persist without a bound: the limit is set to u64::MAX (the value the
+        // sibling knobs use for "no limit")
+        for nd in s.nodes.iter_mut() {
+            nd.max_apply_unpersisted = u64::MAX;
+        }
+    }
     if name.contains("-camp") {
         // the application may call RawNode::campaign() once, on any node that may time out
         s.caps.campaigns = 1;
